@@ -15,6 +15,7 @@ import (
 	"github.com/avos-io/goat/gen/goatorepo"
 	"google.golang.org/grpc"
 	"google.golang.org/grpc/metadata"
+	"google.golang.org/grpc/stats"
 	"google.golang.org/protobuf/types/known/wrapperspb"
 )
 
@@ -71,6 +72,21 @@ func c08Impl(o *c08Obs) *echoImpl {
 	}
 }
 
+// a client stats handler whose TagRPC and Begin handling take (virtual) time
+type slowStats struct{ d time.Duration }
+
+func (s slowStats) TagRPC(ctx context.Context, _ *stats.RPCTagInfo) context.Context {
+	time.Sleep(s.d)
+	return ctx
+}
+func (s slowStats) HandleRPC(ctx context.Context, ev stats.RPCStats) {
+	if _, ok := ev.(*stats.Begin); ok {
+		time.Sleep(s.d)
+	}
+}
+func (s slowStats) TagConn(ctx context.Context, _ *stats.ConnTagInfo) context.Context { return ctx }
+func (s slowStats) HandleConn(context.Context, stats.ConnStats)                       {}
+
 func kvTerms(kvs []*goatorepo.KeyValue) string {
 	var t []string
 	for _, h := range kvs {
@@ -91,6 +107,8 @@ func TestC08Sys(t *testing.T) {
 		transit time.Duration
 		md      metadata.MD
 		tag     string
+		delay   time.Duration // each client stats handler sleeps this long in TagRPC and again in HandleRPC(Begin)
+		nstats  int
 	}
 	var cases []sysCase
 	rems := c08Remainings()
@@ -100,21 +118,29 @@ func TestC08Sys(t *testing.T) {
 			if i%5 == 1 {
 				md = metadata.Pairs("x-trace", "abc")
 			}
-			cases = append(cases, sysCase{k, true, r, 0, md, "transit=0"})
+			cases = append(cases, sysCase{k: k, hasDl: true, r: r, md: md, tag: "transit=0"})
 			if i%4 == ki%4 || i < 12 {
 				// the request stays in flight while the clocks advance
-				cases = append(cases, sysCase{k, true, r, 2500 * time.Microsecond, md, "transit=2.5ms"})
+				cases = append(cases, sysCase{k: k, hasDl: true, r: r, transit: 2500 * time.Microsecond, md: md, tag: "transit=2.5ms"})
 			}
 			if i%16 == 0 {
-				cases = append(cases, sysCase{k, true, r, 3 * time.Second, md, "transit=3s"})
+				cases = append(cases, sysCase{k: k, hasDl: true, r: r, transit: 3 * time.Second, md: md, tag: "transit=3s"})
+			}
+		}
+		// client stats handlers that take time: the announced timeout must still be counted from the deadline
+		for _, d := range []time.Duration{time.Millisecond, 300 * time.Millisecond} {
+			for _, ns := range []int{1, 2} {
+				for _, r := range []int64{int64(time.Second), int64(2500 * time.Millisecond), int64(time.Hour), int64(700 * time.Millisecond)} {
+					cases = append(cases, sysCase{k: k, hasDl: true, r: r, tag: "client-stats-handlers-take-time", delay: d, nstats: ns})
+				}
 			}
 		}
 		// no caller deadline: with and without metadata
-		cases = append(cases, sysCase{k, false, 0, 0, nil, "no-deadline"}, sysCase{k, false, 0, time.Second, metadata.Pairs("x-a", "1", "Grpc-Timeou", "5S"), "no-deadline"})
+		cases = append(cases, sysCase{k: k, tag: "no-deadline"}, sysCase{k: k, transit: time.Second, md: metadata.Pairs("x-a", "1", "Grpc-Timeou", "5S"), tag: "no-deadline"})
 		// caller metadata that uses the reserved key itself (first match wins: model only)
-		cases = append(cases, sysCase{k, true, int64(10 * time.Second), 0, metadata.Pairs("grpc-timeout", "1S"), "reserved-key-in-metadata"},
-			sysCase{k, false, 0, 0, metadata.Pairs("GRPC-Timeout", "7M"), "reserved-key-in-metadata"},
-			sysCase{k, true, int64(10 * time.Second), 0, metadata.Pairs("grpc-timeout", "soon"), "reserved-key-in-metadata"})
+		cases = append(cases, sysCase{k: k, hasDl: true, r: int64(10 * time.Second), md: metadata.Pairs("grpc-timeout", "1S"), tag: "reserved-key-in-metadata"},
+			sysCase{k: k, md: metadata.Pairs("GRPC-Timeout", "7M"), tag: "reserved-key-in-metadata"},
+			sysCase{k: k, hasDl: true, r: int64(10 * time.Second), md: metadata.Pairs("grpc-timeout", "soon"), tag: "reserved-key-in-metadata"})
 	}
 	for _, c := range cases {
 		if !want(idx) {
@@ -133,7 +159,11 @@ func TestC08Sys(t *testing.T) {
 			srv := newEchoServer("dst", c08Impl(&o))
 			ret := make(chan error, 1)
 			go func() { ret <- srv.Serve(context.Background(), l.S) }()
-			cc := goat.NewClientConn(l.C, "src", "dst")
+			var dopts []goat.DialOption
+			for i := 0; i < c.nstats; i++ {
+				dopts = append(dopts, goat.WithStatsHandler(slowStats{c.delay}))
+			}
+			cc := goat.NewClientConn(l.C, "src", "dst", dopts...)
 			ctx, cancel := context.WithCancel(context.Background())
 			defer cancel()
 			if c.md != nil {
@@ -153,7 +183,11 @@ func TestC08Sys(t *testing.T) {
 			} else {
 				go cc.NewStream(ctx, c.k.desc, c.k.path)
 			}
+			// the client's stats handlers run first (TagRPC, Begin: 2 x delay each), then the header is built
+			hdrDelay := time.Duration(2*c.nstats) * c.delay
+			time.Sleep(hdrDelay)
 			synctest.Wait()
+			t0 += int64(hdrDelay)
 			w := l.C.WrittenCopy()
 			if len(w) == 0 {
 				t.Errorf("nothing written")
@@ -190,7 +224,7 @@ func TestC08Sys(t *testing.T) {
 		remT := "None"
 		class := "no-deadline"
 		if c.hasDl {
-			remT = "(Some " + coqZ(c.r) + ")"
+			remT = "(Some " + coqZ(c.r-int64(time.Duration(2*c.nstats)*c.delay)) + ")" // what is left of the caller's deadline when the header is built
 			switch {
 			case c.r <= 0:
 				class = "expired"
